@@ -920,6 +920,16 @@ def check_make_credential(paths, ctx, want):
                     F.append(Finding("C04", "mc.flags-not-from-consent", "flags given to the authenticator data are not the consent step's result", None, None, p))
 
         if "C07" in want:
+            if kind == "Ok" and not save:
+                sc0 = mc_scenario(p, ctx)
+                vs0 = []
+                if sc0:
+                    for cap in ("full", "non_discoverable", "forced"):
+                        for rk in (False, True):
+                            v = json.loads(json.dumps(sc0)); v["store"]["capability"] = cap; v["request"]["rk"] = rk; vs0.append(v)
+                F.append(Finding("C07", "mc.ok-without-save", "a registration succeeds on a path that never calls save_credential: the new credential was not accepted by the store before "
+                                 "the response existed", vs0 or None,
+                                 lambda o: isinstance(o["result"], dict) and "ok" in o["result"] and not any(c["call"] == "save" for c in o["log"]), p))
             bad = [e["callee"] for _, e in muts if e["callee"] != "CredentialStore::save_credential"]
             if bad or len(muts) > 1:
                 F.append(Finding("C07", "mc.mutations", "make_credential path with store mutations %s (at most one save_credential expected)" % [e["callee"] for _, e in muts], mc_scenario(p, ctx),
@@ -1030,6 +1040,21 @@ def check_make_credential(paths, ctx, want):
             if kind == "Ok":
                 fsk = calls(p, "from_secret_key")
                 rv = [(i, e) for i, e in ev if e["callee"].endswith("random_vec")]
+                if len(save) == 0:
+                    # "exactly one credential is added": a success that never hands the credential to the store
+                    sc = mc_scenario(p, ctx)
+                    vs = []
+                    if sc:
+                        for cap in ("full", "non_discoverable", "forced"):
+                            for rk in (False, True):
+                                v = json.loads(json.dumps(sc))
+                                v["store"]["capability"] = cap
+                                v["request"]["rk"] = rk
+                                vs.append(v)
+                    F.append(Finding("C02", "mc.ok-without-save", "a registration succeeds on a path that never calls save_credential (%s)" %
+                                     "; ".join(kk[:50] for kk, op, v in p.conds if "discoverable" in kk or "rk" in kk)[:120], vs or None,
+                                     lambda o: isinstance(o["result"], dict) and "ok" in o["result"] and not any(c["call"] == "save" for c in o["log"]), p))
+                    continue
                 if len(save) != 1 or not fsk or not rv or not ca:
                     raise Shape("successful registration without the expected key generation / save events")
                 if not derives_from(fsk[0][1]["args"][1], ca[0][1]["ret"], p):
@@ -1123,8 +1148,36 @@ def check_forwarding(fn_paths, method, ctx):
         if "Authenticator" not in full:
             F.append(Finding("C18", "trait.%s.wrong-callee" % method, "forwards to %s" % full[:100], None, None, p))
         ret = p.end[1][2][0]
-        if chase(ret) != ("await", e["ret"]) and not contains(ret, ("await", e["ret"])):
-            F.append(Finding("C18", "trait.%s.result-changed" % method, "the trait method does not return the direct method's result unchanged (%s)" % tstr(ret)[:100], None, None, p))
+        # nothing may reach into the answer after it has arrived: no later call takes (a reference to) the awaited value or a
+        # part of it, and nothing is stored through a pointer derived from it
+        touched = []
+        aw = ("await", e["ret"])
+        for j, x in enumerate(p.events):
+            if x["kind"] != "call" or j <= i or x["callee"].endswith(("Future::poll", "IntoFuture::into_future", "Pin::new_unchecked", "Try::branch", "from_residual", "From::from", "Into::into")):
+                continue
+            vals = list(x["args"]) + [v for _, v in x.get("pointees", {}).values()]
+            if any(contains(v, aw) for v in vals):
+                touched.append(x["callee"])
+        for k, vals in getattr(p, "heap", {}).items():
+            if k > i:
+                touched.append("store through a pointer obtained from %s" % p.events[k]["callee"])
+        if touched:
+            ret = ("touched", tuple(touched[:4]), ret)
+        if chase(ret) != ("await", e["ret"]):
+            # anything but the awaited value itself: a rebuilt / filtered / re-wrapped answer
+            if method == "get_info":
+                base = {"request": {}, "store": {"find": {"ok": 0}, "held": []}}
+                sc2 = []
+                for ver in (False, True, None):
+                    for pres in (True, False):
+                        for hs in (None, "uv_only", "without_uv_mc"):
+                            u = {"verification": ver, "presence_enabled": pres, "outcome": {"ok": [True, True]}}
+                            a = dict(base, op="trait_get_info", user=u, config={"hmac_secret": hs} if hs else {})
+                            b = dict(base, op="get_info", user=u, config={"hmac_secret": hs} if hs else {})
+                            sc2.append({"pair": [a, b]})
+            else:
+                sc2 = [pair(rq) for rq in probes]
+            F.append(Finding("C18", "trait.%s.result-changed" % method, "the trait method does not return the direct method's result unchanged (%s)" % tstr(ret)[:100], sc2, differ, p))
         others = [x for _, x in ev if x is not e and x["callee"].startswith(("CredentialStore::", "UserValidationMethod::"))]
         if others:
             F.append(Finding("C18", "trait.%s.extra-effects" % method, "the trait method touches the store / user validation itself: %s" % [x["callee"] for x in others], None, None, p))
@@ -1344,6 +1397,8 @@ def _bv_smt(t, decls):
             return "(_ bv%d 64)" % int(m.group(1))
     if t[0] == "op1" and t[1] in ("PtrMetadata", "Len"):
         return _len_smt(t[2], decls)
+    if t[0] == "lenof":
+        return _len_smt(t[1], decls)
     raise Shape("cannot encode %s as a bit-vector" % tstr(t)[:80])
 
 
@@ -2761,4 +2816,205 @@ def check_authdata_setters(fns, src):
         raise Shape("no returning path in the AuthenticatorData setters")
     if seen_sections != {"AT", "ED"}:
         raise Shape("the setters' paths attach only %s: the section writes were not recognised" % sorted(seen_sections))
+    return F, n
+
+
+def _typenum(text):
+    """UInt<UInt<UTerm, B1>, B0> ... -> integer"""
+    bits = re.findall(r"B([01])>", text)
+    if not bits:
+        return None
+    v = 0
+    for b in bits:
+        v = v * 2 + int(b)
+    return v
+
+
+def check_fixed_size_slices(fns, solver, names=("public_key_der_from_cose_key", "private_key_from_cose_key")):
+    """C15: `GenericArray::from_slice` panics unless the slice has exactly the array's length.  On every path that reaches
+    such a call, z3 is asked whether the branch conditions taken so far allow another length for that vector."""
+    from .executor import Executor
+    from .smt import bv_value
+    F = []
+    n = 0
+    nq = 0
+    roles = set()
+    for name in names:
+        if name not in fns:
+            raise Shape("cannot identify %s in the MIR" % name)
+        ps = Executor(fns[name], follow_yields=False, max_visits=4, max_paths=60000).run()
+        for p in ps:
+            if p.end and p.end[0] == "unsupported":
+                raise Shape("unsupported MIR in %s: %s" % (name, p.end[1][:160]))
+            n += 1
+            calls_ = [(i, e) for i, e in enumerate(p.events) if e["kind"] == "call" and e["callee"].endswith("GenericArray::from_slice")]
+            if not calls_:
+                continue
+            # lengths: `v.len()` results stand for the length of v
+            lens = {}
+            for i, e in enumerate(p.events):
+                if e["kind"] == "call" and re.search(r"(Vec|slice|\[T\]|str)::len$|::len$", e["callee"]) and e["args"]:
+                    _, pv = _pointee(e, 0)
+                    lens[i] = chase(pv) if pv is not None else chase(e["args"][0])
+
+            def subst(t):
+                if isinstance(t, tuple) and t and t[0] == "ret" and isinstance(t[1], int) and t[1] in lens:
+                    return ("lenof", lens[t[1]])
+                if isinstance(t, tuple):
+                    return tuple(subst(x) for x in t)
+                return t
+            for i, e in calls_:
+                want_len = _typenum(e["full"])
+                if want_len is None:
+                    raise Shape("cannot read the array length of %s" % e["full"][:80])
+                a = chase(e["args"][0])
+                vec = a
+                if a[0] == "ret" and str(a[2]).endswith(("as_slice", "Deref::deref", "as_ref", "borrow")):
+                    ae = p.events[a[1]]
+                    _, pv = _pointee(ae, 0)
+                    vec = chase(pv) if pv is not None else chase(ae["args"][0])
+                decls = []
+                conds = []
+                for k, op, v in p.conds:
+                    t = p.cond_term.get(k)
+                    if t is None or t[0] != "op" or t[1] not in ("Lt", "Le", "Gt", "Ge", "Eq", "Ne"):
+                        continue
+                    t2 = subst(t)
+                    try:
+                        x, y = _bv_smt(t2[2], decls), _bv_smt(t2[3], decls)
+                    except Shape:
+                        continue
+                    rel = {"Lt": "(bvult %s %s)", "Le": "(bvule %s %s)", "Gt": "(bvugt %s %s)", "Ge": "(bvuge %s %s)", "Eq": "(= %s %s)", "Ne": "(distinct %s %s)"}[t[1]] % (x, y)
+                    if op == "==":
+                        conds.append(rel if v == 1 else "(not %s)" % rel)
+                L = _len_smt(vec, decls)
+                verdict, model = solver.check(decls, conds + ["(distinct %s (_ bv%d 64))" % (L, want_len), "(bvult %s (_ bv1024 64))" % L], want_model=True)
+                nq += 1
+                if verdict == "sat":
+                    role = "%s.unchecked-slice-length" % name
+                    if role in roles:
+                        continue
+                    roles.add(role)
+                    lv = bv_value(model.get(L, "")) if model else None
+                    F.append(Finding("C15", role, "%s reaches GenericArray::<u8, %d>::from_slice with a slice whose length is not constrained to %d (e.g. %s): it panics" %
+                                     (name, want_len, want_len, lv), {"op": "cose_converter"},
+                                     lambda o: any(c["outcome"] == "panic" for c in o["result"]["cases"]), p))
+                elif verdict != "unsat":
+                    raise Shape("solver answered %s on the slice-length query" % verdict)
+    return F, n, nq
+
+
+# ---- C13: which members of the integer-keyed messages are required, which take a default ---------------
+
+CTAP_REQUIRED = {
+    "get_assertion::Request": {"rp_id", "client_data_hash"},
+    "make_credential::Request": {"client_data_hash", "rp", "user", "pub_key_cred_params"},
+    "get_info::Response": {"versions", "aaguid"},
+    "HmacGetSecretInput": {"key_agreement", "salt_enc", "salt_auth"},
+}
+
+
+def check_member_requiredness(fns):
+    """every serde_workaround!-generated visit_map: on the path that finds no key at all, a member the CTAP specification
+    requires is resolved through `ok_or_else(missing_field)`, every other member through `unwrap_or_default`"""
+    from .executor import Executor
+    F = []
+    n = 0
+    vms = [f for nme, f in fns.items() if nme.endswith(">::visit_map") and "serde_workaround.rs" in nme]
+    if not vms:
+        raise Shape("no serde_workaround visit_map in the MIR")
+    sc = {"op": "cbor_minimal"}
+
+    def bad(o):
+        for m in o["result"]["messages"]:
+            if not m["minimal_decodes"] or m["missing_required_accepted"]:
+                return True
+            d = m["defaults"] or {}
+            if "up" in d and (d["up"] is not True or d["rk"] or d["uv"]):
+                return True
+            if any(v for k, v in d.items() if k not in ("up", "rk", "uv")):
+                return True
+        return False
+    seen = set()
+    for f in vms:
+        m = re.search(r"-> Result<([\w:]+),", f.sig)
+        ty = m.group(1) if m else "?"
+        key = next((k for k in CTAP_REQUIRED if ty.endswith(k)), None)
+        if key is None:
+            raise Shape("visit_map for a message type without a requiredness table: %s" % ty)
+        seen.add(key)
+        ps = Executor(f, follow_yields=False, max_visits=2, max_paths=200000).run()
+        oks = [p for p in ps if p.end and p.end[0] == "return" and p.end[1][0] == "ctor" and p.end[1][1] == "Ok" and p.end[1][2] and p.end[1][2][0][0] == "struct"]
+        if not oks:
+            raise Shape("no Ok path with a struct literal in the visit_map of %s" % ty)
+        for p in oks:
+            n += 1
+            for field, v in p.end[1][2][0][2]:
+                t = chase(v)
+                while isinstance(t, tuple) and t and t[0] == "proj":
+                    t = chase(t[1])
+                kind = None
+                if t[0] == "ret" and str(t[2]).endswith(("unwrap_or_default", "unwrap_or", "unwrap_or_else")):
+                    kind = "default"
+                elif t[0] == "ret" and str(t[2]).endswith(("ok_or_else", "ok_or")):
+                    kind = "required"
+                elif t[0] == "branch":
+                    kind = "required"
+                if kind is None:
+                    raise Shape("cannot tell how member %s of %s is resolved: %s" % (field, ty, tstr(t)[:80]))
+                want = "required" if field in CTAP_REQUIRED[key] else "default"
+                if kind != want:
+                    role = "visit_map.%s.%s.%s-but-%s" % (key, field, kind, want)
+                    if role not in [x.role for x in F]:
+                        F.append(Finding("C13", role, "member `%s` of %s is treated as %s; the CTAP specification makes it %s" %
+                                         (field, key, "required" if kind == "required" else "optional with a default", "required" if want == "required" else "optional"), sc, bad, p))
+    return F, n
+
+
+# ---- C14: the lenient base64 wrappers ---------------------------------------------------------------------
+
+def check_base64_wrappers(fns):
+    """try_from_base64 / try_from_base64url strip trailing padding and then decode with an encoding that does not expect
+    padding (BASE64_NOPAD, or a specification whose `padding` is None); base64 / base64url encode without padding"""
+    from .executor import Executor
+    F = []
+    n = 0
+    sc = {"op": "base64_lenient"}
+    bad = lambda o: bool(o["result"]["mismatches"])
+    for name, kind in (("try_from_base64", "dec"), ("try_from_base64url", "dec"), ("base64", "enc"), ("base64url", "enc")):
+        cands = [f for nme, f in fns.items() if nme in (name, "encoding::" + name, "utils::encoding::" + name) or nme.endswith("::encoding::" + name)]
+        if len(cands) != 1:
+            raise Shape("cannot identify encoding::%s (%d)" % (name, len(cands)))
+        for p in Executor(cands[0], follow_yields=False).run():
+            if p.end and p.end[0] == "unsupported":
+                raise Shape("unsupported MIR in encoding::%s: %s" % (name, p.end[1][:160]))
+            if not p.end or p.end[0] != "return":
+                continue
+            n += 1
+            ev = [e for e in p.events if e["kind"] == "call"]
+            text = " ".join(tstr(e["args"]) + tstr(list(e.get("pointees", {}).values())) for e in ev)
+            if kind == "dec":
+                dec = [e for e in ev if e["callee"].endswith("Encoding::decode")]
+                if not dec:
+                    continue
+                trims = [e for e in ev if e["callee"].endswith(("trim_end_matches", "trim_matches"))]
+                src = tstr(dec[0]["args"]) + tstr(list(dec[0].get("pointees", {}).values()))
+                spec_enc = [e for e in ev if e["callee"].endswith("Specification::encoding")]
+                nopad = "NOPAD" in src
+                if not nopad and spec_enc and derives_from(dec[0]["args"][0], spec_enc[0]["ret"], p) or (spec_enc and any(derives_from(v, spec_enc[0]["ret"], p) for _, v in dec[0].get("pointees", {}).values())):
+                    _, sv = _pointee(spec_enc[0], 0)
+                    pad = _struct_field(sv, "padding") if sv is not None else None
+                    nopad = pad == ("ctor", "None", ())
+                if not nopad and ("BASE64" in src):
+                    F.append(Finding("C14", "encoding.%s.padded-decoder" % name, "encoding::%s strips the padding but decodes with a padded encoding (%s)" % (name, src[:80]), sc, bad, p))
+                if not trims or not any(derives_from(a, trims[0]["ret"], p) for a in dec[0]["args"]):
+                    F.append(Finding("C14", "encoding.%s.padding-not-stripped" % name, "encoding::%s does not decode the input with its trailing padding stripped" % name, sc, bad, p))
+            else:
+                enc = [e for e in ev if e["callee"].endswith("Encoding::encode")]
+                src = tstr(enc[0]["args"]) + tstr(list(enc[0].get("pointees", {}).values())) if enc else ""
+                want = "BASE64URL_NOPAD" if name == "base64url" else "BASE64_NOPAD"
+                if not enc or want not in src:
+                    F.append(Finding("C14", "encoding.%s.wrong-alphabet-or-padding" % name, "encoding::%s does not encode with %s (%s)" % (name, want, src[:80]), sc, bad, p))
+    if n == 0:
+        raise Shape("no returning path in the base64 wrappers")
     return F, n
